@@ -65,8 +65,9 @@ func c03Accounting(r *R) {
 	var refMu sync.Mutex
 	origRefs := map[string]vivid.ActorRef{}
 	top.OnLaunch = func(ctx vivid.ActorContext, p *Probe) {
+		kids := ctx.Children() // never call into the system under test while holding a harness lock (it may park)
 		refMu.Lock()
-		for _, k := range ctx.Children() {
+		for _, k := range kids {
 			origRefs[k.GetPath()] = k
 		}
 		refMu.Unlock()
@@ -296,6 +297,7 @@ func c03Accounting(r *R) {
 	for _, e := range w.Events() {
 		if e.Kind == "Cmd" && strings.Contains(e.Info, "from=after-stop") {
 			r.Fail("C03/processed-after-stop", "a message sent after Stop() returned was processed by %s", e.Path)
+			w.DumpNotes(600)
 			return
 		}
 	}
